@@ -446,7 +446,12 @@ class SetAlg:
     def _gen_axioms(self, gens: tuple) -> list:
         """An element drawn through `for a, b in combinations(X, 2)` exists only when X has two or more elements."""
         out = []
+        bound: set = set()
         for _pat, it, _conds in gens:
+            here = {v for v in subterms(it) if v[0] == "var"} & bound
+            bound |= {v for v in subterms(_pat) if v[0] == "var"}
+            if here:
+                continue  # the collection depends on an earlier generator's variable: nothing can be said about it outside the comprehension
             src = self.strip(it) if it[0] != "call" else it
             if src[0] == "call" and isinstance(src[1], str) and src[1].split(".")[-1] in ("combinations", "permutations") and len(src[2]) == 2 \
                     and src[2][1][0] == "const" and isinstance(src[2][1][1], int) and src[2][1][1] >= 2:
@@ -477,12 +482,14 @@ class SetAlg:
         # one-point rule: ⋃_{..., v in T if c, ...} {v}  with v not used by later generators
         if q[0] in ("setlit", "listlit", "tuplelit") and len(q[1]) == 1:
             v = q[1][0]
+            vparts = [v] if v[0] == "var" else (list(v[1]) if v[0] == "tuplelit" and v[1] and all(x[0] == "var" for x in v[1]) and len(set(v[1])) == len(v[1]) else [])
             for k, (pat, it, conds) in enumerate(gens):
                 later = gens[k + 1:]
-                if pat == v and v[0] == "var" and not any(_mentions_var(g, v) for g in later):
+                if pat == v and vparts and not any(_mentions_var(g, x) for g in later for x in vparts):
                     rest = gens[:k] + later
                     if not rest:
-                        return f_and(self.member(e, it), *[self.cond(subst(c, {v: e})) for c in conds])
+                        mp = {v: e} if v[0] == "var" else {x: ("proj", e, i) for i, x in enumerate(vparts)}
+                        return f_and(self.member(e, it), *[self.cond(subst(c, mp)) for c in conds])
                     if not conds and not later:
                         return self._member_part(e, ("bigunion", ("comp", "set", it, gens[:k])))
                     break
